@@ -47,6 +47,8 @@ def op_fault_decode(a):
             gen = lambda b: PduFactory.from_raw(b)
         else:
             obj = mk_tc(a["p"]) if kind == "tc" else mk_tm(a["p"])
+            if a["mut"]:
+                obj.pack()                  # an earlier pack() must not leave a checksum behind that survives the setters
             for m in a["mut"]:
                 f, x = m["f"], m["x"]
                 if f == "data" and kind == "tc":
@@ -59,6 +61,7 @@ def op_fault_decode(a):
                     obj.seq_count = x
                 else:
                     raise ValueError(f)
+            view = bytes(obj.to_space_packet().pack())
             raw = bytes(obj.pack())
             if kind == "tc":
                 from spacepackets.ecss.tc import PusTc
@@ -71,6 +74,7 @@ def op_fault_decode(a):
         bad = flip_bits(raw, a["off"], a["w"], a["pat"]) if a["w"] else raw
         out = {"cls": _verdict(lambda: dec(bad)), "gen": _verdict(lambda: gen(bad)) if gen else "na", "octets": octs(raw)}
         out["crcfn"] = "na" if kind == "pdu" else ("ok" if check_pus_crc(bad) else "bad")
+        out["view"] = "na" if kind == "pdu" else ("ok" if (view == raw and check_pus_crc(view)) else "bad")
         return out
     return outcome(run)
 
